@@ -87,6 +87,18 @@ def install():
 
     builtins.open = b_open
 
+    from alpenhorn.common import util
+
+    _real["run_command"] = util.run_command
+
+    def run_command(cmd, *a, **k):
+        sim = _state["sim"]
+        if sim is not None and sim.recording:
+            sim.on_fs("exec", ["exec:" + os.path.basename(str(cmd[0]))], {})
+        return _real["run_command"](cmd, *a, **k)
+
+    util.run_command = run_command
+
 
 def uninstall():
     if not _real:
@@ -94,6 +106,9 @@ def uninstall():
     for name in ("unlink", "remove", "rename", "replace", "link", "symlink", "mkdir", "rmdir", "utime", "chmod", "truncate", "open"):
         setattr(os, name, _real[name])
     builtins.open = _real["builtins.open"]
+    from alpenhorn.common import util
+
+    util.run_command = _real["run_command"]
     _real.clear()
 
 
@@ -224,7 +239,7 @@ class Sim:
             self.interleave = None
             self._nested(a, b)
         self._tick(op)
-        e = {"op": op, "paths": paths, "host": self.cur_host, **({"mode": info["mode"]} if "mode" in info else {})}
+        e = {"op": op, "paths": paths, "host": self.cur_host, "tick": self.ncalls, **({"mode": info["mode"]} if "mode" in info else {})}
         for m in self.monitors:
             m(self, e)
         self.effects.append(e)
@@ -239,7 +254,7 @@ class Sim:
                     sim._tick("sql:" + verb)
                 elif sim.crashed:
                     raise Crash()
-                sim.sqllog.append((verb, sql[:100], sim.sdb.transaction_depth()))
+                sim.sqllog.append((verb, sql[:100], sim.sdb.transaction_depth(), sim.ncalls))
                 if sim.sql_fault_at is not None and len(sim.sqllog) == sim.sql_fault_at:
                     raise w.pw.OperationalError("injected by the harness")
             return sim.orig_sql(sql, params, *a, **k)
